@@ -725,7 +725,7 @@ template <class T> Result execFCmpV(const std::string& kind, int style, const st
   }
   if (kind == "fv") {
     size_t n = a.size();
-    if (n != b.size() || n < 1 || n > 4) { res.impl = "bad-op"; res.oracle = "FAIL malformed line"; return res; }
+    if (n != b.size() || n < 1 || n > 8 || n == 7) { res.impl = "bad-op"; res.oracle = "FAIL malformed line"; return res; }
     bool eq = false, ne = false, eqsw = false, opsOk = true;
     withStyle(style, [&](auto S) {
       constexpr int st = decltype(S)::value;
@@ -733,7 +733,10 @@ template <class T> Result execFCmpV(const std::string& kind, int style, const st
         case 1: fvEqF<T, 1, st>(a, b, ea.dflt, eps, eq, ne, eqsw, opsOk); break;
         case 2: fvEqF<T, 2, st>(a, b, ea.dflt, eps, eq, ne, eqsw, opsOk); break;
         case 3: fvEqF<T, 3, st>(a, b, ea.dflt, eps, eq, ne, eqsw, opsOk); break;
-        default: fvEqF<T, 4, st>(a, b, ea.dflt, eps, eq, ne, eqsw, opsOk); break;
+        case 4: fvEqF<T, 4, st>(a, b, ea.dflt, eps, eq, ne, eqsw, opsOk); break;
+        case 5: fvEqF<T, 5, st>(a, b, ea.dflt, eps, eq, ne, eqsw, opsOk); break;
+        case 6: fvEqF<T, 6, st>(a, b, ea.dflt, eps, eq, ne, eqsw, opsOk); break;
+        default: fvEqF<T, 8, st>(a, b, ea.dflt, eps, eq, ne, eqsw, opsOk); break;
       }
       return 0;
     });
@@ -758,12 +761,12 @@ template <class T> std::string froundLaws(int style, int rstyle, const mpq_class
   mpz_class l = floorQ(x);
   if (mpq_class(l) == x) return r == l ? "" : "integer argument not returned unchanged";
   int snapped = eqSlack<T>(style, mpq_class(truncQ(x)), x, eps);
-  if (snapped != 0) return "";  // (possibly) equal to its integer part within epsilon
+  if (snapped != 0) { stat(snapped > 0 ? "fround_branch_equals_integer_part" : "fround_branch_open_rounding"); return ""; }
   mpq_class pp = x - mpq_class(l), qq = mpq_class(l + 1) - x;
   mpq_class absErr = pow2q(1 - p);  // the two distances (both below 1) are computed in T
   int tie = eqSlack<T>(style, pp, qq, eps, absErr);
-  if (tie < 0) return "";
-  if (tie == 0 && abs(pp - qq) <= 4 * absErr) return "";
+  if (tie < 0 || (tie == 0 && abs(pp - qq) <= 4 * absErr)) { stat("fround_branch_open_rounding"); return ""; }
+  stat(tie ? (pp == qq ? "fround_branch_exact_tie" : "fround_branch_tie_within_eps") : "fround_branch_nearest");
   int dir = rstyle;
   if (rstyle == 0) dir = x > 0 ? 2 : 3;
   if (rstyle == 1) dir = x > 0 ? 3 : 2;
@@ -782,6 +785,7 @@ template <class T> std::string ftruncLaws(int style, int rstyle, bool uns, const
   }
   if (r != l && r != l + 1) return "result is neither floor nor floor+1 of the argument";
   int eqL = eqSlack<T>(style, mpq_class(l), x, eps), eqU = eqSlack<T>(style, mpq_class(l + 1), x, eps);
+  stat(eqU == 1 ? "ftrunc_branch_snap_up" : eqU < 0 || eqL < 0 ? "ftrunc_branch_open_rounding" : eqL == 1 ? "ftrunc_branch_near_below" : "ftrunc_branch_plain");
   int dir = rstyle;
   if (rstyle == 0) dir = x > 0 ? 2 : 3;
   if (rstyle == 1) dir = x > 0 ? 3 : 2;
@@ -1567,6 +1571,7 @@ static std::string genRT(Rng& r) {
     case 0: eps = GD{0, 0}; break;
     case 1: eps = GD{1, -1}; break;
     case 2: eps = GD{(long)r.range(1, 3), 0}; break;
+    case 3: case 4: eps = GD{1, -(long)r.range(f32 ? 5 : 10, f32 ? 8 : 21)}; break;   // small: few arguments are "equal to their integer part"
     default: eps = GD{(long)r.range(1, 3), -(long)r.range(1, f32 ? 5 : 10)}; break;
   }
   long nb = f32 ? 4 : 11;
@@ -1711,9 +1716,10 @@ template <class T> std::string genFCmpT(Rng& r, bool vec) {
     return os.str();
   }
   bool stdv = r.coin();
-  int n = stdv ? (int)r.range(0, 5) : (int)r.range(1, 4);
+  static const int FVN[] = {1, 2, 3, 4, 5, 6, 8};
+  int n = stdv ? (int)r.range(0, 9) : FVN[r.below(7)];
   std::vector<std::string> A, B;
-  int differ = r.coin(1, 3) ? -1 : (int)r.below(n ? n : 1);
+  int differ = r.coin(1, 3) ? -1 : (r.coin(1, 3) ? n - 1 : (int)r.below(n ? n : 1));   // often the last component
   for (int i = 0; i < n; ++i) {
     T a = genVal<T>(r, 0), b = fixFinite(genPartner<T>(r, st, a, eps));
     if (i != differ && r.coin(2, 3)) b = a;
